@@ -48,10 +48,10 @@ P = {
  "C14": ("exhaustive enumeration of insert/delete sequences on tiny tables under several RNG scripts + model-based PBT over a class multiset (+ libFuzzer target filter_ops in the thorough tier)",
          "Checks len, query, delete's return value and exact one-copy removal, Ok(true) on success, unchanged state on Err and guaranteed success below bucketsize elements.",
          "Classes computed behaviourally; per-class copy counts measured by deleting on clones."),
- "C15": ("PBT with metamorphic/invariant oracles (monotonicity, bounds, inverse consistency, idempotent reads)",
+ "C15": ("PBT with metamorphic/invariant oracles (monotonicity, bounds, inverse consistency, idempotent reads) + libFuzzer target tdigest_ops in the thorough tier",
          "Generated digests (all scale functions, ties, weights over 12 decades) probed on dense q and x grids incl. both tails; debug assertions of interpolate() are enabled.",
          "Tolerances as stated by the property: a few ulps of the data range scaled by total/smallest weight."),
- "C16": ("PBT against exact accumulations + twin differential without zero-weight inserts",
+ "C16": ("PBT against exact accumulations + twin differential without zero-weight inserts + libFuzzer target tdigest_ops in the thorough tier",
          "count/sum/mean within accumulation accuracy, min/max exact, zero-weight inserts change nothing (bit-identical twin), is_empty iff no positive weight.",
          "Relative tolerance 1e-9 on sums."),
  "C17": ("model-based PBT against a reference register model; permutation/duplication metamorphic relation",
